@@ -79,7 +79,7 @@ def adjacency_cases(rng, T, count):
     return out
 
 
-def cases(rng, tier):
+def _cases_orig(rng, tier):
     for c in CORPUS:
         yield Case(c, ("corpus",), "corpus")
     T = songgen.event_types()
@@ -149,6 +149,29 @@ def cases(rng, tier):
         yield Case("conv " + " ".join(extra + [songgen.render(song)]), sorted(tags) or ["plain"], "structured")
 
 
+def _cases_plain(rng, tier):
+    return _cases_orig(rng, tier)
+
+
+def cases(rng, tier):
+    """the unoptimised stream, then the same kind of songs through `mmlc -O` (optimise, then convert)"""
+    for c in _cases_orig(rng, tier):
+        yield c
+    # D2: more than 255 repeats folded into one loop
+    yield Case("convo 10 T0:" + ",".join(["2.48.6.0"] * 300), ("corpus", "optimised"), "corpus")
+    from checks import c01
+    T = songgen.event_types()
+    n = 150 if tier == "quick" else 2500
+    made = 0
+    while made < n:
+        song = c01.motif_song(rng, T)
+        if any(songgen.expanded_size(song, t, T) > 2000 for t in song if t < 16):
+            continue
+        # stay inside the encodable domain: loop point only at depth 0 (motif_song does that), notes in range
+        made += 1
+        yield Case("convo %d %s" % (rng.choice([0, 3, 10]), songgen.render(song)), ("optimised",), "optimised")
+
+
 def outcome_class(a):
     if a.startswith("seq="):
         return "ok"
@@ -161,6 +184,11 @@ def finding_key(case, impl, judge):
         return "crash:" + (m.group(1) if m else "unknown")
     if "rejected" in judge:
         return "rejects-encodable:" + impl.split(" ")[0][:40]
+    if case.req.startswith("convo"):
+        # an optimised song whose folded loop count does not fit the one-byte LPF operand
+        m = re.search(r"251\.(\d+)", impl)
+        if any(int(x) > 255 for x in re.findall(r"[;:|]251\.(\d+)", impl)):
+            return "optimised:loop-count>255"
     if "interpreter stopped" in judge:
         m = re.search(r"stopped with Ctrmml.Seq.Stop.(\w+)", judge)
         return "stream-broken:" + (m.group(1) if m else "x")
@@ -173,4 +201,4 @@ def shrink(req):
     extra = [t for t in toks[1:] if not (t[0] == "T" and t[1:2].isdigit())]
     for s2 in songgen.shrink_song(song):
         if any(k < 16 for k in s2):
-            yield " ".join(["conv"] + extra + [songgen.render(s2)])
+            yield " ".join([toks[0]] + extra + [songgen.render(s2)])
